@@ -11,6 +11,25 @@ class Uninterpretable(Exception):
     pass
 
 
+class deep_recursion:
+    """Context manager for the reference interpreters only: they are recursive over expression
+    depth, which the library's writers may nest arbitrarily; the limit of the code under test is
+    left as it is outside the block."""
+
+    def __init__(self, limit=40000):
+        self.limit = limit
+
+    def __enter__(self):
+        import sys
+        self.old = sys.getrecursionlimit()
+        sys.setrecursionlimit(max(self.old, self.limit))
+
+    def __exit__(self, *exc):
+        import sys
+        sys.setrecursionlimit(self.old)
+        return False
+
+
 def ev(tree, sel):
     """Evaluate a logical constraint tree under selection `sel` (set of names)."""
     if isinstance(tree, str):
